@@ -247,15 +247,19 @@ func (s *EncryptionSession) In(seqNum uint32, prio bool) (
 		sh = s.prioSeqHandler
 	}
 
-	// Check if we need to rollover key.
-	if sh.RolloverRequired(seqNum) {
+	// Check if the frame was sealed with the next key.
+	// The sequence number is not authenticated yet, so nothing is changed here:
+	// the frame is decrypted with the cipher of the next key and the rollover
+	// is executed by Check, after the frame was authenticated.
+	if sh.rolloverIndicated(seqNum) {
 		if prio {
 			return nil, errors.New("prio sequence handler requested key rollover")
 		}
-		s.prioSeqHandler.ResetIn()
-		if err := s.rolloverInKey(); err != nil {
+		_, nextCipher, err := rolloverKey(s.inKey)
+		if err != nil {
 			return nil, fmt.Errorf("rollover in key: %w", err)
 		}
+		return nextCipher, nil
 	}
 
 	return s.inCipher, nil
@@ -324,10 +328,24 @@ func (s *EncryptionSession) rolloverOutKey() error {
 }
 
 // Check checks the given sequence number and returns an error if there is an issue.
+// It must only be called for frames that were authenticated with the cipher
+// returned by In, as it executes the rollover of the incoming key.
 func (s *EncryptionSession) Check(seqNum uint32, prio bool) error {
 	if prio {
 		return s.prioSeqHandler.Check(seqNum)
 	}
+
+	// Execute key rollover, if the authenticated frame was sealed with the next key.
+	s.lock.Lock()
+	if s.inCipher != nil && s.reglSeqHandler.RolloverRequired(seqNum) {
+		s.prioSeqHandler.ResetIn()
+		if err := s.rolloverInKey(); err != nil {
+			s.lock.Unlock()
+			return fmt.Errorf("rollover in key: %w", err)
+		}
+	}
+	s.lock.Unlock()
+
 	return s.reglSeqHandler.Check(seqNum)
 }
 
@@ -396,6 +414,15 @@ func (sh *SequenceHandler) RolloverRequired(seqNum uint32) bool {
 		sh.highest = 0
 		return true
 	}
+}
+
+// rolloverIndicated returns whether the given sequence number indicates that
+// the key was rolled over by the sender. It does not change anything.
+func (sh *SequenceHandler) rolloverIndicated(seqNum uint32) bool {
+	sh.lock.Lock()
+	defer sh.lock.Unlock()
+
+	return sh.highest >= rolloverUpperBound && seqNum <= rolloverLowerBound
 }
 
 // Reset resets the sequence counters to zero.
